@@ -1,6 +1,6 @@
 (** C09 — Equality statements are accepted only for identical responses of all referenced claims. *)
 From Coq Require Import List Bool Arith.
-From ACV Require Import Model.Field Model.Res Model.Pres Proofs.PresP.
+From ACV Require Import Model.Field Model.Res Model.Pres Proofs.PresP Model.EqGroups Proofs.EqGroupsP.
 Import ListNotations.
 
 Theorem C09_accept_equality : forall K, feqb_ok K -> forall (S : schema K) (P : pres K) fs,
@@ -9,3 +9,20 @@ Theorem C09_accept_equality : forall K, feqb_ok K -> forall (S : schema K) (P : 
   refs <> [] /\ exists v, forall r c, In (r, c) refs ->
     exists hid, sig_hidden K S P r = Some hid /\ lookup c hid = Some v.
 Proof. exact accept_equality. Qed.
+
+(** the honest holder's side (Presentation::get_message_types after fix a78606f): whatever statements
+    the verifier writes the equalities with — one statement, a chain, a star, in any order, with any
+    overlaps — any two claims named by one statement end up with the same proof message (value and
+    blinder), so the verifier's comparison of their responses succeeds *)
+Theorem C09_one_blinder_per_statement : forall (V : Type) stmts (pm : key -> V) s a b,
+  In s stmts -> In a s -> In b s -> propagate V stmts pm a = propagate V stmts pm b.
+Proof. exact propagate_equalises. Qed.
+
+(** the pinned tree copied the first member's message onto the others statement by statement: with
+    the statements (b = c, a = b) the claims b and c keep different blinders (repaired) *)
+Theorem C09_pinned_sequential_copy_refuted :
+  exists (stmts : list (list key)) (pm : key -> nat) s a b,
+    In s stmts /\ In a s /\ In b s /\ propagate_seq nat stmts pm a <> propagate_seq nat stmts pm b.
+Proof. exact propagate_seq_refuted. Qed.
+
+Print Assumptions C09_one_blinder_per_statement.
